@@ -535,7 +535,7 @@ def generate(ctx):
     import time
     common.log(f"[C06] build + theorem re-check done at {time.time() - ctx.t0:.0f}s")
     rnd = random.Random(ctx.seed)
-    cases = gen_cases(rnd, ctx.quick)
+    cases = gen_cases(rnd, ctx.quick, scale=1.0 if ctx.quick else 1.6)
     run_cases(cases, jit=True, log=common.log)
     common.log(f"[C06] kernels run (jit+vmap) at {time.time() - ctx.t0:.0f}s")
     # eager re-run of a sub-sample (no jit, no vmap)
